@@ -48,6 +48,26 @@ const kvWat = `(module
     (call $set (local.get $k) (local.get $v)) (i32.store8 (local.get $v) (i32.const 88)) (i32.const 1))
   (func (export "add_reuse") (param $k i32) (param $v i32) (result i32)
     (call $add (local.get $k) (local.get $v)) (i32.store8 (local.get $v) (i32.const 89)) (i32.const 1))
+  (func (export "burn") (param $k i32) (param $v i32) (result i32)
+    ;; writes the record, then loops as many times as the decimal number in the value says: a call whose cost is
+    ;; bounded and lies near the operator's gas limit (succeeds just below it, runs out of gas just above it)
+    (local $n i32) (local $p i32) (local $c i32)
+    (call $set (local.get $k) (local.get $v))
+    (local.set $p (local.get $v))
+    (block $done
+      (loop $parse
+        (local.set $c (i32.load8_u (local.get $p)))
+        (br_if $done (i32.lt_u (local.get $c) (i32.const 48)))
+        (br_if $done (i32.gt_u (local.get $c) (i32.const 57)))
+        (local.set $n (i32.add (i32.mul (local.get $n) (i32.const 10)) (i32.sub (local.get $c) (i32.const 48))))
+        (local.set $p (i32.add (local.get $p) (i32.const 1)))
+        (br $parse)))
+    (block $out
+      (loop $spin
+        (br_if $out (i32.eqz (local.get $n)))
+        (local.set $n (i32.sub (local.get $n) (i32.const 1)))
+        (br $spin)))
+    (i32.const 1))
   (func (export "read") (param $k i32) (param $v i32) (result i32)
     (drop (call $get (local.get $k))) (i32.const 1)))`
 
@@ -61,7 +81,7 @@ var kvWasm = func() []byte {
 
 // (running out of gas burns the whole block gas limit in the WASM engine, a tenth of a second: rare)
 var kvMethods = []string{"put", "add", "put_trap", "add_trap", "put_spin", "put2_trap", "read", "put", "add", "add_trap", "no_such_method", "put",
-	"add", "add_trap", "put_trap", "add_spin", "put2_trap", "read", "put", "add", "add_trap", "put_trap", "add", "put", "put_reuse", "add_reuse", "put_reuse"}
+	"add", "add_trap", "put_trap", "add_spin", "put2_trap", "read", "put", "add", "add_trap", "put_trap", "add", "put", "put_reuse", "add_reuse", "put_reuse", "burn", "burn", "burn"}
 
 func (s *scn) deployKV() bool {
 	u := s.users[0]
@@ -89,6 +109,16 @@ func (s *scn) applyKV(st CStep) {
 	s.kvSeq++
 	key := fmt.Sprintf("rec%d", st.B%3)
 	val := fmt.Sprintf("v%d", s.kvSeq)
+	if m == "burn" {
+		gl := s.cfg.World.GasLimit
+		if gl == 0 || gl > 10000000 {
+			m = "put" // (with the shipped limit of 100 M a call near the limit takes too long)
+		} else {
+			// a loop iteration costs a handful of fuel units: the factors put the call's cost on either side of the limit
+			f := []uint64{3, 6, 9, 12, 16, 25, 40}[st.A%7]
+			val = fmt.Sprintf("%d", gl*f/40)
+		}
+	}
 	tx := s.b.xvmInvoke(sender, s.kvAddr, m, pb.String(key), pb.String(val))
 	s.add(tx, &txMeta{kind: "kv", sender: sender, note: m + "/" + key, kvKey: key, kvVal: val, kvMethod: m})
 	s.res.Count("kv_" + m)
@@ -109,7 +139,7 @@ func (s *scn) kvAfterBlock(h uint64, metas []*txMeta, ref *blockResult) {
 			continue
 		}
 		switch mt.kvMethod {
-		case "put", "add", "put_reuse", "add_reuse":
+		case "put", "add", "put_reuse", "add_reuse", "burn":
 			s.kvModel[mt.kvKey] = mt.kvVal
 		}
 	}
